@@ -15,8 +15,8 @@ class C02(EgSpec):
     rule = ('random histories over LV by motif (symmetry: permuted copies of a leaf, redundancy: renamed/dropped slot, self-reference a = u(a), random terms with subterms; 1-5 unions) '
             'plus the corpus of minimised known-defect histories; every pair of handles is compared. non-trivial = symmetry/redundancy/self-reference motif or at least two unions')
     streams = [
-        {'name': 'default', 'component': 'eg', 'config': 'default', 'quick': 240, 'thorough': 6000},
-        {'name': 'checks', 'component': 'eg', 'config': 'checks', 'quick': 80, 'thorough': 2000},
+        {'name': 'default', 'component': 'eg', 'config': 'default', 'quick': 240, 'thorough': 3500},
+        {'name': 'checks', 'component': 'eg', 'config': 'checks', 'quick': 80, 'thorough': 1200},
     ]
 
     def evaluate(self, stream, case, impl_obs, model_obs, ctx):
